@@ -23,7 +23,7 @@ REPO = "/repo"
 ROOT = os.path.dirname(os.path.dirname(os.path.dirname(os.path.abspath(__file__))))
 
 MONITOR_OF = {"C02": "assembly", "C03": "assembly", "C04": "bc", "C05": "timestep", "C11": "law", "C12": "fearray", "C14": "stale", "C15": "history",
-              "C19": "integrate"}
+              "C17": "phasefield", "C19": "integrate"}
 
 # workloads: ("tests", [paths relative to /repo]) or ("examples", [glob patterns relative to /repo/examples], cap seconds per script)
 WORKLOADS = {
@@ -36,6 +36,8 @@ WORKLOADS = {
     "examples-weakforms": ("examples", ["WeakForms/*.py"], 120),
     "examples-nonlinear": ("examples", ["Hyperelasticity/Hyperelas*.py", "PhaseField/*.py"], 150),
     "examples-inelastic": ("examples", ["Inelasticity/*.py"], 120),
+    "examples-phasefield-short": ("examples", ["PhaseField/LShape.py", "PhaseField/CT.py"], 120),
+    "examples-phasefield": ("examples", ["PhaseField/*.py"], 240),
     "examples-dynamic": ("examples", ["Beam/Beam[67].py", "LinearizedElasticity/Elas9.py", "Thermal/Thermal[23].py", "Hyperelasticity/Hyperelas4.py"], 90),
     "examples-dynamic-long": ("examples", ["LinearizedElasticity/Elas10.py", "WeakForms/LinearElasticity2.py"], 150),
     "examples-histories": ("examples", ["Contact/Contact[23].py", "Inelasticity/RelaxationPlate.py", "LinearizedElasticity/Elas7.py", "PhaseField/LShape.py", "Beam/Beam6.py",
@@ -49,6 +51,7 @@ PLAN = {
     "C04": {"quick": ["examples-short"], "thorough": ["tests-simulations", "examples-elastic", "examples-weakforms", "examples-nonlinear", "examples-inelastic"]},
     "C05": {"quick": ["examples-dynamic"], "thorough": ["tests-simulations", "examples-dynamic", "examples-dynamic-long"]},
     "C15": {"quick": ["examples-histories"], "thorough": ["tests-simulations", "examples-histories", "examples-nonlinear", "examples-inelastic", "examples-elastic"]},
+    "C17": {"quick": ["examples-phasefield-short"], "thorough": ["tests-simulations", "tests-models", "examples-phasefield"]},
     "C11": {"quick": ["examples-short"], "thorough": ["tests-models", "tests-simulations", "examples-elastic", "examples-nonlinear"]},
     "C12": {"quick": ["examples-short"], "thorough": ["tests-fem", "tests-models", "tests-simulations", "examples-weakforms", "examples-nonlinear"]},
     "C14": {"quick": ["examples-short"], "thorough": ["tests-simulations", "examples-elastic", "examples-weakforms", "examples-nonlinear", "examples-inelastic"]},
